@@ -61,7 +61,8 @@ impl<'a> TlvSet<'a> {
         let original = buffer;
         let mut total_length = 0;
 
-        while buffer.len() > 4 {
+        // a TLV consists of at least the type and length fields; its value may be empty
+        while buffer.len() >= 4 {
             let _tlv_type = TlvType::from_primitive(u16::from_be_bytes([buffer[0], buffer[1]]));
             let length = u16::from_be_bytes([buffer[2], buffer[3]]) as usize;
 
@@ -112,7 +113,7 @@ impl<'a> Iterator for TlvSetIterator<'a> {
     type Item = Tlv<'a>;
 
     fn next(&mut self) -> Option<Self::Item> {
-        if self.buffer.len() <= 4 {
+        if self.buffer.len() < 4 {
             debug_assert_eq!(self.buffer.len(), 0);
             return None;
         }
